@@ -314,6 +314,11 @@ pub fn run(outdir: &Path, tier: &str, seed: u64, shards: usize, _replay: Option<
         ("deep type expression 64".into(), deep_t(64), "query Q { x }".into()),
         ("deep type expression 1000".into(), deep_t(1000), "query Q { x }".into()),
         ("directive and arguments".into(), base.clone(), "query Q($a: Int = 3) { me @include(if: true) { name } }".into()),
+        // a variable default that leaves out a REQUIRED member lying on a cycle of required members: whatever is
+        // emitted for the missing member, rendering the default must follow the literal, not the type graph
+        ("partial default on a non-null input cycle".into(), "input Ping { pong: Pong! note: String }\ninput Pong { ping: Ping! }\ntype Query { x(p: Ping): Int }\n".into(), "query Q($ping: Ping = { note: \"start\" }) { x(p: $ping) }".into()),
+        ("partial default on a self-referential required member".into(), "input Chain { next: Chain! tag: Int }\ntype Query { x(c: Chain): Int }\n".into(), "query Q($c: Chain = { tag: 1 }) { x(c: $c) }".into()),
+        ("nested partial default".into(), "input Ping { pong: Pong! note: String }\ninput Pong { ping: Ping! }\ntype Query { x(p: Ping): Int }\n".into(), "query Q($ping: Ping = { pong: { } }) { x(p: $ping) }".into()),
     ];
     for (kind, schema, query) in raws {
         n += 1;
